@@ -58,6 +58,9 @@ type asStruct struct {
 type asSchema struct {
 	structs map[string]*asStruct
 	kinds   []string // node kinds in source order
+	// ctorPos[K]: func New<K> of ast.go exists and its first parameter has type *Position
+	ctorPos map[string]bool
+	ctor    map[string]bool
 }
 
 var asIfaces = map[string]bool{"Expression": true, "Node": true, "Operator": true}
@@ -73,7 +76,16 @@ func asParseSchema(repo string) (*asSchema, error) {
 	if err != nil {
 		return nil, err
 	}
-	sc := &asSchema{structs: map[string]*asStruct{}}
+	sc := &asSchema{structs: map[string]*asStruct{}, ctorPos: map[string]bool{}, ctor: map[string]bool{}}
+	for _, d := range f.Decls {
+		if fd, ok := d.(*ast.FuncDecl); ok && fd.Recv == nil && strings.HasPrefix(fd.Name.Name, "New") {
+			k := strings.TrimPrefix(fd.Name.Name, "New")
+			sc.ctor[k] = true
+			if ps := fd.Type.Params.List; len(ps) > 0 && exprString(fset, ps[0].Type) == "*Position" {
+				sc.ctorPos[k] = true
+			}
+		}
+	}
 	raw := map[string]*ast.StructType{}
 	var order []string
 	for _, d := range f.Decls {
@@ -581,6 +593,9 @@ type asRow struct {
 	handled   bool
 	uses      []asUse
 	unguarded []string
+	viaExpr   bool     // CloneNode reaches the kind through `case ast.Expression: return CloneExpression(n)`
+	exits     []string // Lean terms of CloneAttrs.Exit: the ways out of the arm
+	pos       string   // Lean term of CloneAttrs.PosMode
 }
 
 // asAnalyse runs the clause analysis for every kind; first matching clause in source order
@@ -590,6 +605,12 @@ func asAnalyse(sc *asSchema, fset *token.FileSet, file *ast.File, fn string, mod
 	recv, cases, _, err := asTypeSwitch(fset, file, fn)
 	if err != nil {
 		return nil, err
+	}
+	var shape *asFuncShape
+	if mode == "clone" {
+		if shape, err = asShapeOf(fset, file, fn); err != nil {
+			return nil, err
+		}
 	}
 	rows := map[string]*asRow{}
 	seenKinds := map[string]bool{}
@@ -630,6 +651,7 @@ func asAnalyse(sc *asSchema, fset *token.FileSet, file *ast.File, fn string, mod
 					return nil, fmt.Errorf("shape not recognised: %s: case ast.Expression does not just return CloneExpression(%s)", fn, recv)
 				}
 				*row = *delegate[kind]
+				row.viaExpr = true
 				break
 			}
 			an := &asClauseAn{sc: sc, fset: fset, kind: kind, recv: recv, env: []map[string]asRef{{}}}
@@ -642,6 +664,12 @@ func asAnalyse(sc *asSchema, fset *token.FileSet, file *ast.File, fn string, mod
 			}
 			row.handled = true
 			row.uses = an.uses
+			if mode == "clone" {
+				row.exits, row.pos, err = asArmSkeleton(sc, fset, fn, kind, c.body, recv, shape)
+				if err != nil {
+					return nil, err
+				}
+			}
 			for _, u := range an.uses {
 				if u.guarded || u.ref.elem {
 					continue
@@ -676,6 +704,194 @@ func asAnalyse(sc *asSchema, fset *token.FileSet, file *ast.File, fn string, mod
 		}
 	}
 	return rows, nil
+}
+
+// ---- control-flow skeleton of the clone functions ----------------------------------------
+//
+// What happens to the attributes every node shares. The function has the shape
+//
+//	[if <param> == nil { return nil }]  [var <result> ast.Expression]
+//	switch <recv> := <param>.(type) { … arms … }
+//	[<result>.SetParenthesis(<param>.Parenthesis())]*   — the epilogue
+//	[return <result>]
+//
+// and an arm leaves the switch by reaching its end (then the epilogue runs on <result>) or by
+// a `return` of its own (which skips it).
+
+type asFuncShape struct {
+	param         string // the value being cloned
+	result        string // the shared result variable ("" when nothing follows the switch)
+	epilogueParen bool   // the statements after the switch copy the parenthesis count to result
+}
+
+func asShapeOf(fset *token.FileSet, file *ast.File, fn string) (*asFuncShape, error) {
+	for _, d := range file.Decls {
+		fd, ok := d.(*ast.FuncDecl)
+		if !ok || fd.Name.Name != fn || fd.Recv != nil {
+			continue
+		}
+		sh := &asFuncShape{}
+		after := []ast.Stmt(nil)
+		seen := false
+		for _, s := range fd.Body.List {
+			if ts, ok := s.(*ast.TypeSwitchStmt); ok {
+				seen = true
+				as := ts.Assign.(*ast.AssignStmt)
+				ta, ok := as.Rhs[0].(*ast.TypeAssertExpr)
+				if !ok {
+					return nil, fmt.Errorf("shape not recognised: %s: type switch guard", fn)
+				}
+				id, ok := ta.X.(*ast.Ident)
+				if !ok {
+					return nil, fmt.Errorf("shape not recognised: %s: the type switch is not on a parameter", fn)
+				}
+				sh.param = id.Name
+				continue
+			}
+			if seen {
+				after = append(after, s)
+			}
+		}
+		if len(after) == 0 {
+			return sh, nil
+		}
+		ret, ok := after[len(after)-1].(*ast.ReturnStmt)
+		if !ok || len(ret.Results) != 1 {
+			return nil, fmt.Errorf("shape not recognised: %s: the statements after the type switch do not end in `return <result>`", fn)
+		}
+		rid, ok := ret.Results[0].(*ast.Ident)
+		if !ok {
+			return nil, fmt.Errorf("shape not recognised: %s: returns %s after the type switch", fn, exprString(fset, ret.Results[0]))
+		}
+		sh.result = rid.Name
+		for _, s := range after[:len(after)-1] {
+			if asIsSetParen(fset, s, sh.result, sh.param, "") {
+				sh.epilogueParen = true
+				continue
+			}
+			return nil, fmt.Errorf("shape not recognised: %s: epilogue statement %s", fn, exprString(fset, s))
+		}
+		return sh, nil
+	}
+	return nil, fmt.Errorf("shape not recognised: function %s not found", fn)
+}
+
+// asIsSetParen: s is `<on>.SetParenthesis(<from>.Parenthesis())` with from one of from1, from2.
+func asIsSetParen(fset *token.FileSet, s ast.Stmt, on, from1, from2 string) bool {
+	es, ok := s.(*ast.ExprStmt)
+	if !ok {
+		return false
+	}
+	got := exprString(fset, es.X)
+	for _, from := range []string{from1, from2} {
+		if from != "" && got == on+".SetParenthesis("+from+".Parenthesis())" {
+			return true
+		}
+	}
+	return false
+}
+
+// asArmSkeleton lists the exits of one arm and where its constructor takes the position from.
+func asArmSkeleton(sc *asSchema, fset *token.FileSet, fn, kind string, body []ast.Stmt, recv string, sh *asFuncShape) (exits []string, pos string, err error) {
+	// statements of the arm in source order with their nesting (top level or not)
+	type setp struct {
+		on  string
+		pos token.Pos
+	}
+	var sets []setp
+	var rets []*ast.ReturnStmt
+	for _, s := range body {
+		ast.Inspect(s, func(n ast.Node) bool {
+			switch x := n.(type) {
+			case *ast.ReturnStmt:
+				rets = append(rets, x)
+			case *ast.ExprStmt:
+				if call, ok := x.X.(*ast.CallExpr); ok {
+					if sel, ok := call.Fun.(*ast.SelectorExpr); ok && sel.Sel.Name == "SetParenthesis" {
+						if on, ok := sel.X.(*ast.Ident); ok && asIsSetParen(fset, x, on.Name, recv, sh.param) {
+							sets = append(sets, setp{on.Name, x.Pos()})
+						} else {
+							err = fmt.Errorf("shape not recognised: %s: case *ast.%s: %s", fn, kind, exprString(fset, x.X))
+						}
+					}
+				}
+			}
+			return true
+		})
+	}
+	if err != nil {
+		return nil, "", err
+	}
+	for _, r := range rets {
+		self := false
+		if len(r.Results) == 1 {
+			if id, ok := r.Results[0].(*ast.Ident); ok {
+				for _, sp := range sets {
+					// a top-level SetParenthesis on the returned variable, before the return
+					if sp.on == id.Name && sp.pos < r.Pos() && asTopLevel(body, sp.pos) {
+						self = true
+					}
+				}
+			}
+		}
+		exits = append(exits, fmt.Sprintf(".ret %v", self))
+	}
+	falls := true
+	if n := len(body); n > 0 {
+		switch last := body[n-1].(type) {
+		case *ast.ReturnStmt:
+			falls = false
+		case *ast.ExprStmt:
+			if call, ok := last.X.(*ast.CallExpr); ok && exprString(fset, call.Fun) == "panic" {
+				falls = false
+			}
+		}
+	}
+	if falls {
+		assigned := false
+		for _, s := range body {
+			if as, ok := s.(*ast.AssignStmt); ok && as.Tok == token.ASSIGN && len(as.Lhs) == 1 && sh.result != "" {
+				if id, ok := as.Lhs[0].(*ast.Ident); ok && id.Name == sh.result {
+					assigned = true
+				}
+			}
+		}
+		exits = append(exits, fmt.Sprintf(".fall %v", assigned))
+	}
+	// the constructor call
+	var ctor *ast.CallExpr
+	for _, s := range body {
+		ast.Inspect(s, func(n ast.Node) bool {
+			if call, ok := n.(*ast.CallExpr); ok && ctor == nil && exprString(fset, call.Fun) == "ast.New"+kind {
+				ctor = call
+			}
+			return true
+		})
+	}
+	switch {
+	case ctor == nil:
+		return nil, "", fmt.Errorf("shape not recognised: %s: case *ast.%s does not call ast.New%s", fn, kind, kind)
+	case !sc.ctor[kind]:
+		return nil, "", fmt.Errorf("shape not recognised: ast.go has no func New%s", kind)
+	case !sc.ctorPos[kind]:
+		pos = ".ctor"
+	case len(ctor.Args) > 0 && (exprString(fset, ctor.Args[0]) == "ClonePosition("+recv+".Position)" || exprString(fset, ctor.Args[0]) == "ClonePosition("+recv+".Pos())"):
+		pos = ".cloned"
+	default:
+		pos = ".other"
+	}
+	return exits, pos, nil
+}
+
+// asTopLevel reports whether the statement starting at p is one of the arm's own statements
+// (not nested in an if / for / block).
+func asTopLevel(body []ast.Stmt, p token.Pos) bool {
+	for _, s := range body {
+		if s.Pos() == p {
+			return true
+		}
+	}
+	return false
 }
 
 // ---- Lean output -----------------------------------------------------------------------
@@ -741,9 +957,9 @@ func genAstSchema(repo string) (string, error) {
 
 	var b strings.Builder
 	w := func(format string, args ...any) { fmt.Fprintf(&b, format, args...) }
-	w("import ScriggoV.Model.Tree\n")
+	w("import ScriggoV.Model.Tree\nimport ScriggoV.Model.CloneAttrs\n")
 	w("/-! Node kinds of ast/ast.go with their child-bearing fields (`schema`), the fields\nCloneNode/CloneExpression deep-copy (`cloned`) and the steps of Walk (`walked`), read from\nast/astutil/clone.go and walk.go. See go/cmd/extract/gen_astschema.go for the shapes. -/\n")
-	w("namespace ScriggoV.Gen.AstSchema\nopen ScriggoV.Tree (Step)\n\n")
+	w("namespace ScriggoV.Gen.AstSchema\nopen ScriggoV.Tree (Step)\nopen ScriggoV.CloneAttrs (Exit PosMode)\n\n")
 	w("inductive Kind where\n")
 	for _, k := range sc.kinds {
 		w("  | %s\n", asLeanKind(k))
@@ -843,6 +1059,18 @@ func genAstSchema(repo string) (string, error) {
 	}, "false")
 	table("cloned", "fields whose children that case passes to CloneExpression / CloneNode / CloneTree (or copies as identifiers by hand)", "List Field",
 		func(k string) string { return useList(cloneNode[k], true) }, "[]")
+	table("handCopied", "identifier children the case copies by hand with ast.NewIdentifier(ClonePosition(x.Position), x.Name) instead of CloneExpression: name and position are copied, the parenthesis count is not", "List Field",
+		func(k string) string {
+			var xs []string
+			seen := map[string]bool{}
+			for _, u := range cloneNode[k].uses {
+				if s := "." + asLeanField(u.ref.path); u.fn == "NewIdentifier" && !seen[s] {
+					seen[s] = true
+					xs = append(xs, s)
+				}
+			}
+			return list(xs)
+		}, "[]")
 	table("cloneUnguarded", "single children handed to a cloning function that dereferences them (CloneNode, CloneTree, a hand copy, or CloneExpression of a pointer-typed field) outside `if field != nil`", "List Field",
 		func(k string) string {
 			var xs []string
@@ -851,6 +1079,23 @@ func genAstSchema(repo string) (string, error) {
 			}
 			return list(xs)
 		}, "[]")
+	exprShape, err := asShapeOf(fset, cloneFile, "CloneExpression")
+	if err != nil {
+		return "", err
+	}
+	w("/-- the statements between the type switch of CloneExpression and its final `return <result>` copy the parenthesis count of the original to the result -/\ndef cloneEpilogueParen : Bool := %v\n\n", exprShape.epilogueParen)
+	table("cloneNodeDelegates", "CloneNode reaches the kind through `case ast.Expression: return CloneExpression(n)` (no arm of its own)", "Bool", func(k string) string {
+		return fmt.Sprint(cloneNode[k].viaExpr)
+	}, "false")
+	table("cloneExits", "the ways out of the kind's arm (of CloneExpression for a delegated kind, else of CloneNode), returns in source order, then the end of the arm if it can be reached", "List Exit", func(k string) string {
+		return list(cloneNode[k].exits)
+	}, "[]")
+	table("clonePos", "where the arm's constructor call takes the position of the copy from", "PosMode", func(k string) string {
+		if cloneNode[k].pos == "" {
+			return ".other"
+		}
+		return cloneNode[k].pos
+	}, ".other")
 	table("walkHandled", "Walk has a case for the kind", "Bool", func(k string) string {
 		return fmt.Sprint(walk[k].handled)
 	}, "false")
